@@ -636,8 +636,11 @@ func (c *Ctx) AuthoriseBeforeAct(prop string) {
 						continue
 					}
 					// in scatter workers of the batch endpoints the signing sink is governed by C06.O1/O4 (position-wise); skip signing there
-					if batchWorker && (what == "signing" || strings.Contains(what, "signRoot")) {
+					if batchWorker && what == "signing" {
 						continue
+					}
+					if cal := ci.Common().StaticCallee(); batchWorker && cal != nil && c.isSignHelper(cal) {
+						continue // the signing helper (identified by its AccountSigner.Sign invoke, not by name)
 					}
 					target := ins
 					x, path := an.Cut(an.CutQuery{From: an.Entry(f), Target: func(i ssa.Instruction) bool { return i == target },
@@ -671,6 +674,12 @@ func (c *Ctx) AuthoriseBeforeAct(prop string) {
 			}
 		}
 	}
+}
+
+// isSignHelper: fn is one of the signer package's functions that invoke AccountSigner.Sign.
+func (c *Ctx) isSignHelper(fn *ssa.Function) bool {
+	sg := c.Signer("C07.O3 authorise-before-act")
+	return sg != nil && sg.SignFns[fn]
 }
 
 // batchGateCovers: in the batch signer endpoints RunRules is preceded by the scan that returns on any failed pre-check
